@@ -157,6 +157,21 @@ void h_solve_frame(void)
     unknown = vnacal_make_unknown_parameter(vcp, VNACAL_MATCH);
     ASSUME(unknown >= 0);
     ASSUME(vnacal_new_add_single_reflect_m(vnp, m3, 1, 1, unknown, 1) == 0);
+#ifdef PRIOR_POINTS
+    {	/* the unknown was solved before, in a calibration with PRIOR_POINTS frequencies */
+	vnacal_parameter_t *up = _vnacal_get_parameter(vcp, unknown);
+
+	ASSUME(up != NULL);
+	up->vpmr_frequencies = PRIOR_POINTS;
+	up->vpmr_frequency_vector = malloc(PRIOR_POINTS * sizeof(double));
+	up->vpmr_gamma_vector = malloc(PRIOR_POINTS * sizeof(double complex));
+	ASSUME(up->vpmr_frequency_vector != NULL && up->vpmr_gamma_vector != NULL);
+	for (int i = 0; i < PRIOR_POINTS; ++i) {
+	    up->vpmr_frequency_vector[i] = 0.5e9 * (i + 1);
+	    up->vpmr_gamma_vector[i] = 0.0;
+	}
+    }
+#endif
 #else
     ASSUME(vnacal_new_add_single_reflect_m(vnp, m3, 1, 1, VNACAL_MATCH, 1) == 0);
 #endif
@@ -221,6 +236,21 @@ void h_solve_frame(void)
 	for (int i = 0; i < N_FREQ; ++i)
 	    CHECK(vnp->vn_calibration->cal_frequency_vector[i] == f[i],
 		    "the installed calibration carries the calibration frequencies");
+#if defined(WITH_UNKNOWN)
+	{
+	    vnacal_parameter_t *up = _vnacal_get_parameter(vcp, unknown);
+
+	    CHECK(up != NULL && up->vpmr_frequencies == N_FREQ && up->vpmr_frequency_vector != NULL &&
+		    up->vpmr_gamma_vector != NULL,
+		    "a solved unknown parameter holds one value per frequency of THIS solve");
+	    if (up != NULL && up->vpmr_frequencies == N_FREQ && up->vpmr_frequency_vector != NULL &&
+		    up->vpmr_gamma_vector != NULL)
+		for (int i = 0; i < N_FREQ; ++i) {
+		    CHECK(up->vpmr_frequency_vector[i] == f[i], "on this solve's frequencies");
+		    (void)*(volatile double complex *)&up->vpmr_gamma_vector[i];
+		}
+	}
+#endif
     }
 
     /* the object stays usable: a retry runs against the same contracts */
